@@ -77,6 +77,8 @@ def setup(ctx):
 
 def set_gv(rng):
     fs = float(rng.choice([1e9, 1.6e10, 8e10, 4e11]))
+    if rng.integers(8) == 0:      # "all sampling rates"
+        fs = float(rng.choice([16.0, 1000.0, 44100.0, 1e15]))
     wl = float(rng.choice([1550e-9, 1310e-9, 1565e-9, 850e-9]))
     with core.quiet():
         if rng.integers(4) == 0:      # a sampling rate that is not an integer multiple of the slot rate: everything follows gv.fs, not sps*R
